@@ -17,7 +17,7 @@ MANIFEST = dict(
 
 TREE_EPS = {"gosqlx.Parse", "gosqlx.ParseBytes", "gosqlx.ParseWithContext", "gosqlx.ParseWithTimeout", "gosqlx.ParseMultiple",
             "gosqlx.ParseWithRecovery", "parser.ParseBytes", "parser.ParseBytesWithTokens", "parser.ParseWithDialect",
-            "Parser.Parse", "Parser.ParseContext", "Parser.ParseWithPositions"}
+            "Parser.Parse", "Parser.ParseContext", "Parser.ParseWithPositions", "Parser(reused).Parse", "Parser(reused).ParseWithPositions"}
 
 
 def disagreement(row):
@@ -210,6 +210,17 @@ def run(tier):
         batches.append(qs)
     for s in loopgen.RICH:
         batches.append([s] * 150)
+    # two malformed members in a batch of 16 or more: the earlier one takes long to reject (a long statement whose error is
+    # at its very end), the later one is rejected at once — the batch must still fail at the FIRST failing index
+    slow_bad = "SELECT " + ", ".join("c%d" % i for i in range(3000)) + " FROM t WHERE"
+    for j in range(6 if tier == "quick" else 40):
+        n = 18 + 7 * j
+        qs = [rng.choice(base) for _ in range(n)]
+        i1 = rng.randrange(1, 4)
+        i2 = rng.randrange(i1 + 8, n)
+        qs[i1] = slow_bad
+        qs[i2] = rng.choice(["SELECT 'abc", "SELECT FROM", ")"])
+        batches.append(qs)
     pb = common.vh(["batch"], input="".join(json.dumps({"queries": q}) + "\n" for q in batches), timeout=900)
     brow = [json.loads(l) for l in pb.stdout.splitlines() if l.strip()]
     bbad = []
